@@ -9,6 +9,9 @@
 (*           has = FALSE : a child without values (add_data without 'values')                      *)
 (*           vals        : value tokens  name*100 + gen*10 + position-at-assignment, or NDV        *)
 (*           rd = FALSE  : reading .values raises (only ever produced by a named deviation)        *)
+(*   cached    : FALSE right after Reopen / CopyClearCache: the next operation starts from the file *)
+(*   partsRead : (curves) Curve.parts has been computed on this object since it was loaded - a pure *)
+(*               history marker: it makes the cover visit "parts read, removal, caches dropped"     *)
 (* The operations are written as pure operators  Op(S, args, D) -> [out, st]  where D is the set   *)
 (* of named deviations in force, so that the same run can print, next to the specified result,     *)
 (* what each known as-built deviation of geoh5py would produce (field devs of the TR label).       *)
@@ -27,9 +30,10 @@ CONSTANTS
     MaxDepth,        \* number of operations per behaviour
     Valueless,       \* TRUE: AddData may create a child without values
     CellMask,        \* TRUE: cell objects also offer copy(cell_mask=...)
+    CopyClear,       \* TRUE: copy(clear_cache=True) and (curves) reading Curve.parts are offered
     Deviations       \* {} = the specification ; a subset of AsBuilt = geoh5py as built (negative controls)
 
-VARIABLES obj, expect, cexpect, ccoords, cached, depth, last
+VARIABLES obj, expect, cexpect, ccoords, cached, partsRead, depth, last
 
 NDV == 0 - 1
 AsBuilt == {"NoTouchRaises", "ValuelessChildBreaksRemoval", "RefusedAddLeavesChild", "EmptyValuesUnreadable"}
@@ -168,6 +172,13 @@ CellMaskedCopy(S, cmask, D) ==
                                     IF S.data[p].has /\ S.data[p].assoc = "CELL"
                                     THEN [S.data[p] EXCEPT !.vals = DeleteIdx(@, CR)] ELSE S.data[p]]])
 
+\* A curve whose segments join consecutive vertices, in increasing order.  For such a curve the parts
+\* inferred from the cells (curve.py:137-155) give back exactly these cells (curve.py:58-66).
+ChainLike(S) ==
+    /\ Len(S.verts) > 0
+    /\ \A c \in DOMAIN S.cells : S.cells[c][2] = S.cells[c][1] + 1
+    /\ \A c, e \in DOMAIN S.cells : c < e => S.cells[c][1] < S.cells[e][1]
+
 \* close the workspace, open the file again, read everything back.  As built h5_reader.fetch_values
 \* indexes values[0] and raises on a zero-length array (deviation EmptyValuesUnreadable).
 Reopen(S, D) ==
@@ -175,6 +186,14 @@ Reopen(S, D) ==
               THEN [S EXCEPT !.data = [p \in DOMAIN S.data |->
                         IF S.data[p].has /\ Len(S.data[p].vals) = 0 THEN [S.data[p] EXCEPT !.rd = FALSE] ELSE S.data[p]]]
               ELSE S)
+
+\* object.copy(clear_cache=True) (workspace.py:306-308 clear_array_attributes on the source, its children
+\* and the copy): the duplicate must equal the source, and the source - which stays the object under
+\* observation - must read everything back from the file.  Same observable effect as Reopen.
+\* Offered on curves only when ChainLike: copy() reads Curve.parts, and once the cell cache is dropped
+\* the cells getter rebuilds the cells from the cached parts (curve.py:56-66), which is the identity for
+\* chains only (see notes/C07.md "observed, not modelled").
+CopyClearCache(S, D) == Reopen(S, D)
 
 \* ---------------------------------------------------------------- the operations offered in a state
 Act(nm) == [act |-> nm, name |-> 0, assoc |-> "", k |-> 0, ix |-> <<>>, mask |-> <<>>, clear |-> FALSE]
@@ -200,6 +219,8 @@ Acts(S) ==
   \cup {[Act("MaskedCopy") EXCEPT !.mask = m] : m \in Masks(Len(S.verts))}
   \cup (IF Arity = 0 \/ ~CellMask THEN {} ELSE {[Act("CellMaskedCopy") EXCEPT !.mask = m] : m \in [1..Len(S.cells) -> BOOLEAN]})
   \cup (IF cached THEN {Act("Reopen")} ELSE {})
+  \cup (IF CopyClear /\ cached /\ (Arity # 2 \/ ChainLike(S)) THEN {Act("CopyClearCache")} ELSE {})
+  \cup (IF CopyClear /\ Arity = 2 /\ ~partsRead THEN {Act("ReadParts")} ELSE {})
 
 Step(S, a, D) ==
     CASE a.act = "AddData"        -> AddData(S, a.name, a.assoc, a.k, D)
@@ -209,6 +230,8 @@ Step(S, a, D) ==
       [] a.act = "MaskedCopy"     -> MaskedCopy(S, a.mask, D)
       [] a.act = "CellMaskedCopy" -> CellMaskedCopy(S, a.mask, D)
       [] a.act = "Reopen"         -> Reopen(S, D)
+      [] a.act = "CopyClearCache" -> CopyClearCache(S, D)
+      [] a.act = "ReadParts"      -> Res("ok", S)          \* curve.py:128-157: computes and caches, changes nothing
 
 \* ---------------------------------------------------------------- what the harness sees
 View(S) == [verts |-> S.verts, cells |-> S.cells, data |-> S.data]
@@ -283,6 +306,7 @@ Init ==
                                       THEN CExpectOf(obj, PosOf(obj, d), NoCExpect[d]) ELSE NoCExpect[d]]
         /\ ccoords = [c \in CIds |-> IF c <= Len(cs) THEN [a \in 1..Arity |-> cs[c][a] + 1] ELSE <<>>]
         /\ cached = TRUE
+        /\ partsRead = FALSE
         /\ depth = 0
         /\ last = [act |-> "Init", out |-> "ok"]
 
@@ -294,7 +318,12 @@ Do(a) ==
             /\ cexpect' = [cexpect EXCEPT ![a.name] = CExpectOf(r.st, PosOf(r.st, a.name), @)]
        ELSE UNCHANGED <<expect, cexpect>>
     /\ UNCHANGED ccoords
-    /\ cached' = (a.act # "Reopen")
+    /\ cached' = (a.act \notin {"Reopen", "CopyClearCache"})
+    \* a re-opened object and a fresh (masked) copy have no parts cached; copy() reads the parts of its source
+    /\ partsRead' = IF Arity # 2 THEN FALSE
+                    ELSE IF a.act = "Reopen" \/ (a.act \in {"MaskedCopy", "CellMaskedCopy"} /\ r.out = "ok") THEN FALSE
+                    ELSE IF a.act \in {"ReadParts", "CopyClearCache"} THEN TRUE
+                    ELSE partsRead
     /\ depth' = depth + 1
     /\ last' = [act |-> a.act, name |-> a.name, assoc |-> a.assoc, k |-> a.k, ix |-> a.ix, mask |-> a.mask, clear |-> a.clear,
                 \* the value tokens handed to add_data / the values setter (before padding)
@@ -303,9 +332,10 @@ Do(a) ==
                 out |-> r.out, devs |-> Devs(obj, a)]
 
 \* MaxDepth operations, then one more Reopen so that every explored state is also read back from the file
-Next == \E a \in Acts(obj) : (depth < MaxDepth \/ (depth = MaxDepth /\ a.act = "Reopen")) /\ Do(a)
+Next == \E a \in Acts(obj) :
+            (depth < MaxDepth \/ (depth = MaxDepth /\ a.act \in {"Reopen", "CopyClearCache"})) /\ Do(a)
 
-vars == <<obj, expect, cexpect, ccoords, cached, depth, last>>
+vars == <<obj, expect, cexpect, ccoords, cached, partsRead, depth, last>>
 Spec == Init /\ [][Next]_vars
 
 \* ---------------------------------------------------------------- the property (C07)
@@ -332,8 +362,9 @@ OnlySurvivors == [][/\ IxSet(obj'.verts) \subseteq IxSet(obj.verts)
                     /\ IxSet(obj'.cids) \subseteq IxSet(obj.cids)]_vars
 
 \* ---------------------------------------------------------------- export (harness/README.md)
-vw == <<View(obj), cached>>
+vw == <<View(obj), cached, partsRead>>
 ExportState == PrintT(<<"ST", TLCFP(vw), TLCFP(<<vw, 1>>),
-                        ToJson([verts |-> obj.verts, cells |-> obj.cells, data |-> obj.data, cached |-> cached])>>)
+                        ToJson([verts |-> obj.verts, cells |-> obj.cells, data |-> obj.data, cached |-> cached,
+                                partsRead |-> partsRead])>>)
 ExportTrans == PrintT(<<"TR", TLCFP(vw), TLCFP(<<vw, 1>>), TLCFP(vw'), TLCFP(<<vw', 1>>), ToJson(last')>>)
 =============================================================================
